@@ -13,6 +13,10 @@ void harness(void) {
   uint64_t el = F_vk_percent_encode(in, N, enc, CAP, SET_FORM, 0);
   CHECK(el <= 3 * N, "encoding expands at most 3x");
   uint8_t* e2 = enc;
+#ifdef PLUS
+  /* url_search_params::to_string replaces every ' ' of the encoded text by '+' (the set leaves 0x20 unescaped) */
+  for (unsigned i = 0; i < CAP; i++) if (i < el && enc[i] == ' ') enc[i] = '+';
+#endif
   uint64_t dl = F_vk_form_decode(e2, el, dec, CAP, 0, 0);
 #else
   ASSUME(I.set < 6);
